@@ -162,11 +162,16 @@ theorem malloc_block (s : SPool) (n p : Nat) (h : s.WF) (hp : (s.malloc n).1 = s
     right; simp only [SPool.used]; omega
   · simp [SPool.malloc, hfit] at hp
 
-/-- absolute form: with the region at `buffer + offset`, the block's addresses are inside
-`[buffer+offset, buffer+offset+size)` -/
-theorem malloc_block_absolute (s : SPool) (n p buffer offset : Nat) (h : s.WF) (hp : (s.malloc n).1 = some p) :
-    buffer + offset ≤ buffer + offset + p ∧ buffer + offset + p + n ≤ buffer + offset + s.size := by
-  have := (malloc_block s n p h hp).1; omega
+/-- absolute form: with the region at address `buffer + offset` and its end representable
+(`buffer + offset + size < 2^64`, which the caller's buffer guarantees), the block's first and last
+address computed in `size_t` arithmetic do not wrap and lie inside `[buffer+offset, buffer+offset+size)` -/
+theorem malloc_block_absolute (s : SPool) (n p buffer offset : Nat) (h : s.WF) (hp : (s.malloc n).1 = some p)
+    (hend : buffer + offset + s.size < 2 ^ 64) :
+    (buffer + offset + p) % 2 ^ 64 = buffer + offset + p ∧ (buffer + offset + p + n) % 2 ^ 64 = buffer + offset + p + n ∧
+    buffer + offset ≤ (buffer + offset + p) % 2 ^ 64 ∧ (buffer + offset + p + n) % 2 ^ 64 ≤ buffer + offset + s.size := by
+  have := (malloc_block s n p h hp).1
+  rw [Nat.mod_eq_of_lt (by omega), Nat.mod_eq_of_lt (by omega)]
+  omega
 
 /-- a non-NULL `calloc` result is such a block too, every byte of it reads 0, and no byte outside
 it changes (in particular no byte of another live block) -/
@@ -191,6 +196,40 @@ theorem calloc_block (s : SPool) (c k p : Nat) (h : s.WF) (hp : (s.calloc c k).1
       rw [getD_fillBytes _ _ _ _ _ (by omega)]
       simp [hout]
   · simp [SPool.calloc, hfit] at hp
+
+/-- **End to end on the concrete model.** Run any history `ops₁` on a fresh pool over a `size`-byte
+region; in the state reached, every non-NULL result of `malloc n` (resp. `calloc c k`) is a block
+inside the region that shares no byte with any block that is live at that moment, and every live
+block lies inside the region. -/
+theorem new_history_blocks_safe (size : Nat) (bytes : Buf Nat) (hb : bytes.length = size) (hsz : size < sizeMod)
+    (m : Mem) (ops₁ : List Op) (hops : ∀ op ∈ ops₁, OpOk size op) :
+    let s := ((StaticPool.new size bytes).run ops₁ m).2.1
+    (∀ b ∈ s.blocks, b.1 + b.2 ≤ size) ∧ s.blocks.Pairwise (fun a b => disjoint a b) ∧
+    (∀ n p, (s.malloc n).1 = some p → p + n ≤ size ∧ ∀ b ∈ s.blocks, disjoint (p, n) b) ∧
+    (∀ c k p m', (s.calloc c k m').1 = some p → p + c * k ≤ size ∧ ∀ b ∈ s.blocks, disjoint (p, c * k) b) := by
+  intro s
+  have hi := StaticPool.new_inv size bytes hb
+  have hh := history_refines ops₁ (StaticPool.new size bytes) m hi hsz hops
+  have hinv : s.Inv := hh.2.2.1
+  have hwf := StaticPool.abs_wf s hinv
+  have hsize : s.abs.size = size := by
+    show ((StaticPool.new size bytes).run ops₁ m).2.1.abs.size = size
+    rw [hh.2.1, SPool.run_size]; rfl
+  have hscore : s.core.size = size := hsize
+  have hl := live_blocks_contained_disjoint s.abs hwf
+  refine ⟨fun b hb' => by have := hl.1 b hb'; rw [hsize] at this; exact this, hl.2, ?_, ?_⟩
+  · intro n p hp
+    have hr := StaticPool.malloc_refines s n hinv
+    rw [hr.1] at hp
+    have := malloc_block s.abs n p hwf hp
+    rw [hsize] at this
+    exact ⟨this.1, this.2.1⟩
+  · intro c k p m' hp
+    have hr := StaticPool.calloc_refines s c k m' hinv (by rw [hscore]; exact hsz)
+    rw [hr.1] at hp
+    have := calloc_block s.abs c k p hwf hp
+    rw [hsize] at this
+    exact ⟨this.1, this.2.1⟩
 
 /-- a request that does not fit returns NULL and changes nothing — for every request size -/
 theorem nofit_null_unchanged (s : SPool) (n : Nat) (h : s.free < n) : s.malloc n = (none, s) := by
@@ -218,9 +257,17 @@ theorem used_is_sum (s : SPool) : s.used = (s.blocks.map (·.2)).sum := by
   | nil => rfl
   | cons b bs ih => simp [blocksLen, ih]
 
+/-- … and on the C field: in every state satisfying the invariant `used_bytes()` — `free_ptr - low_ptr`,
+which the code never computes from a block list — is the sum of the lengths of the live blocks -/
+theorem used_bytes_is_sum (s : StaticPool) (h : s.Inv) : s.core.usedBytes = (s.blocks.map (·.2)).sum := by
+  rw [StaticPool.used_abs s h, used_is_sum]; rfl
+
 /-- freeing the most recent block restores the previous state: live blocks, used/free bytes,
-region content and the address the next allocation returns are those before the allocation;
-only the roll-back slot is now empty -/
+region content and the address the next allocation returns are those before the allocation.
+**Not literally "the exact previous state"**: the one roll-back slot is now empty (`undo := false`),
+and that is observable through the API — see `rollback_slot_observable` below.  This is the reading
+of C12 documented in DESIGN.md ("one roll-back slot, not a stack"); the C code keeps a single
+`high_ptr`, so a second `free` of the block below cannot be honoured. -/
 theorem release_newest_restores (s : SPool) (n p : Nat) (hp : (s.malloc n).1 = some p) :
     (s.malloc n).2.release (some p) = { s with undo := false } ∧
     ((s.malloc n).2.release (some p)).used = s.used ∧ ((s.malloc n).2.release (some p)).free = s.free ∧
@@ -232,6 +279,28 @@ theorem release_newest_restores (s : SPool) (n p : Nat) (hp : (s.malloc n).1 = s
     · simp [SPool.malloc, hfit] at hp
   rw [h1]; exact ⟨rfl, rfl, rfl, fun k => by
     simp only [SPool.malloc, SPool.used]; by_cases hk : k ≤ s.size - blocksLen s.blocks <;> simp [hk]⟩
+
+/-- the `calloc` variant: freeing the block a `calloc` just returned restores blocks, accounting and
+the next address; the region content keeps the zeros that were written -/
+theorem release_newest_calloc_restores (s : SPool) (c k p : Nat) (hp : (s.calloc c k).1 = some p) :
+    (s.calloc c k).2.release (some p) = { s with undo := false, bytes := fillBytes s.bytes s.used (c * k) 0 } ∧
+    ((s.calloc c k).2.release (some p)).used = s.used ∧ ((s.calloc c k).2.release (some p)).free = s.free ∧
+    ∀ j, (((s.calloc c k).2.release (some p)).malloc j).1 = (s.malloc j).1 := by
+  have h1 : (s.calloc c k).2.release (some p) = { s with undo := false, bytes := fillBytes s.bytes s.used (c * k) 0 } := by
+    by_cases hfit : c * k ≤ s.size - s.used
+    · simp only [SPool.calloc, hfit, if_true, Option.some.injEq] at hp ⊢
+      subst hp; simp [SPool.release]
+    · simp [SPool.calloc, hfit] at hp
+  rw [h1]; exact ⟨rfl, rfl, rfl, fun j => by
+    simp only [SPool.malloc, SPool.used]; by_cases hj : j ≤ s.size - blocksLen s.blocks <;> simp [hj]⟩
+
+/-- the emptied roll-back slot is observable: `malloc 3; malloc 2; free(2nd); free(1st)` leaves 3
+bytes used, whereas `malloc 3; free(1st)` leaves 0 — after rolling back the second block the first
+one cannot be given back any more (one slot, not a stack) -/
+theorem rollback_slot_observable :
+    let s0 := SPool.init 8 (List.replicate 8 0)
+    ((((s0.malloc 3).2.malloc 2).2.release (some 3)).release (some 0)).used = 3 ∧
+    ((s0.malloc 3).2.release (some 0)).used = 0 := by decide
 
 /-- one roll-back slot, not a stack: once it is used, no `free` changes anything until the next
 successful allocation -/
